@@ -35,6 +35,18 @@ theorem std_shape :
     (defaults std []).get noColor = some (.bool false) ∧
     cfg.helpFirst = [hShort, hLong] := by decide +kernel
 
+/-! ### declaration strings -/
+
+/-- **Declaration syntax.** A command written the documented way — optional `!`, a name without `:`
+that does not itself start with `!`, then `:` and the comma separated parents (non-empty, without
+commas, without surrounding blanks, all different) — is read as exactly that declaration; and whatever
+the string, the parents that come out are non-empty and pairwise different (a set). -/
+theorem decl_syntax :
+    (∀ d : Decl, ':' ∉ d.name → d.name.head? ≠ some '!' →
+      (∀ p ∈ d.parents, p ≠ [] ∧ ',' ∉ p ∧ strip p = p) → d.parents.Nodup → parseDecl (render d) = d) ∧
+    (∀ s : Name, (parseDecl s).parents.Nodup ∧ ∀ p ∈ (parseDecl s).parents, p ≠ []) :=
+  ⟨parseDecl_render, parseDecl_parents⟩
+
 /-! ### construction -/
 
 private theorem build_unfold {dflt : Option Name} {ds : List Decl} {st0 : St} (h : build cfg dflt ds = .ok st0) :
@@ -186,6 +198,61 @@ private theorem reach_noColor {dflt ds adds st} (hr : Reach dflt ds adds st) {q 
   rw [he, defaults_append]
   exact has_defaults (has_of_get std_shape.2.1) _
 
+/-- **No placement is refused without reason.** In a reachable state `add_argument` on the target `t`
+succeeds iff the target is a declared name and no parser that receives the option (every parser; or
+`t` and the commands below it) already has one of its option strings — positionals never fail. The
+only failures are `ValueError` (unknown command) and `ArgumentError`; the new state is reachable. -/
+theorem add_ok_iff {dflt ds adds st} (hr : Reach dflt ds adds st) (t : Option Name) (s : OptSpec) :
+    ((∃ st', addOption st t s = .ok st') ↔
+      (∀ p, t = some p → p ∈ dnames ds) ∧
+      (s.isOpt = true → ∀ q ∈ st.parsers, Applies ds t q.name → ∀ x ∈ s.strings, x ∉ optStrings q.opts)) ∧
+    (∀ e, addOption st t s = .error e → e = .exc .valueError ∨ e = .argumentError) ∧
+    (∀ st', addOption st t s = .ok st' → Reach dflt ds (adds ++ [(t, s)]) st') := by
+  obtain ⟨ps0, hinv, hwf, hne, hp, hd⟩ := reach_unfold hr
+  have hnames : names st.parsers = dnames ds := ((closure dflt ds hne hwf).2 adds st hr).1
+  refine ⟨?_, fun e h => addOption_err h, ?_⟩
+  · rw [addOption_ok_iff, hnames]
+    apply and_congr_right
+    intro _
+    apply imp_congr_right
+    intro _
+    constructor
+    · intro h q hq ha
+      rw [hp] at hq
+      obtain ⟨q0, hq0, rfl⟩ := List.mem_map.mp hq
+      apply h _ (hp ▸ List.mem_map.mpr ⟨q0, hq0, rfl⟩)
+      rw [hp, recvN_map_ext, ext_name]
+      exact (recvN_iff_applies hinv hq0 t).mpr ha
+    · intro h q hq hrecv
+      apply h q hq
+      rw [hp] at hq hrecv
+      obtain ⟨q0, hq0, rfl⟩ := List.mem_map.mp hq
+      rw [recvN_map_ext, ext_name] at hrecv
+      exact (recvN_iff_applies hinv hq0 t).mp hrecv
+  · intro st' h
+    obtain ⟨st0, hb, ha⟩ := hr
+    refine ⟨st0, hb, ?_⟩
+    have happ : ∀ (as bs : List (Option Name × OptSpec)) (s0 s1 : St), addAll s0 as = .ok s1 →
+        addAll s0 (as ++ bs) = addAll s1 bs := by
+      intro as bs
+      induction as with
+      | nil => intro s0 s1 h; simp only [addAll] at h; cases h; rfl
+      | cons a as ih =>
+        intro s0 s1 h
+        have e1 : addAll s0 (a :: as) = match addOption s0 a.1 a.2 with
+            | .error e => .error e
+            | .ok st' => addAll st' as := rfl
+        have e2 : addAll s0 (a :: as ++ bs) = match addOption s0 a.1 a.2 with
+            | .error e => .error e
+            | .ok st' => addAll st' (as ++ bs) := rfl
+        rw [e1] at h
+        rw [e2]
+        cases ha' : addOption s0 a.1 a.2 with
+        | error e => simp [ha'] at h
+        | ok s2 => simp only [ha'] at h ⊢; exact ih s2 s1 h
+    rw [happ adds [(t, s)] st0 st ha]
+    simp only [addAll, h]
+
 /-! ### from the table to `parse_args` -/
 
 /-- **Dispatch.** Arguments that start with the name of a public command go to that command's
@@ -230,6 +297,14 @@ theorem parse_rejects {dflt ds adds st} (hr : Reach dflt ds adds st) {q : Parser
     (hab : ∀ x ∈ optStrings q.opts, ¬ ('-' :: '-' :: c :: r) <+: x) :
     parseArgs cfg st [q.name, '-' :: '-' :: c :: r] = .error (.exit 2) := by
   rw [command_dispatch hr hq hpub h1 h2, runParser_unknown (classify_unknown_long heq hn hab)]
+
+/-- the same for a short option `-x` -/
+theorem parse_rejects_short {dflt ds adds st} (hr : Reach dflt ds adds st) {q : Parser} (hq : q ∈ st.parsers)
+    (hpub : q.internal = false) (h1 : q.name ≠ hShort) (h2 : q.name ≠ hLong)
+    {c : Char} (hc1 : c ≠ '-') (hc2 : c ≠ '=') (hc3 : c.isDigit = false)
+    (hn : ['-', c] ∉ optStrings q.opts) (hab : ∀ x ∈ optStrings q.opts, ¬ ['-', c] <+: x) :
+    parseArgs cfg st [q.name, ['-', c]] = .error (.exit 2) := by
+  rw [command_dispatch hr hq hpub h1 h2, runParser_unknown (classify_unknown_short hc1 hc2 hc3 hn hab)]
 
 /-- the standard option string `s` is declared by the source with a kind for which `[cmd, s]` is a
 complete use (decided on the generated table) -/
@@ -354,7 +429,7 @@ theorem default_is_first_public {dflt ds adds st} (hr : Reach dflt ds adds st) :
 /-- **Default command — what the code guarantees** (`_partial`: the statement of the property is
 "arguments that do not start with a *command* name are parsed as the default command"; the code, and
 therefore this theorem, treats the names of internal `!` option sets as command names too — see
-`internal_name_gap`; known finding c19b).
+`internal_name_gap`, `default_cmd_full_if_public_test`; known finding c19b).
 In every state (reachable or not): arguments that are empty or whose first word is neither
 `-h`/`--help` nor the name of any declared parser are parsed exactly as if the default command had
 been written in front of them. -/
@@ -368,14 +443,33 @@ theorem default_cmd_partial {st : St} {q : Parser} (hq : q ∈ st.parsers)
     rw [std_shape.2.2]
     exact ⟨(h a ha).1, fun hm => (h a ha).2 (firstArgNames_sub hm)⟩
 
-/-- **The gap (known finding c19b).** When the first word is the name of an internal `!` option set
-the code does *not* insert the default command: `parse_args` exits with "invalid choice". -/
-theorem internal_name_gap {dflt ds adds st} (hr : Reach dflt ds adds st) {q : Parser} (hq : q ∈ st.parsers)
+/-- **The full statement holds as soon as the first argument is compared with the public command
+names only** (`cfg.allParsers = false`, the two-line repair proposed for c19b; vacuous for the code as
+it is): then every first word that is not a public command name — internal `!` names included — leads
+to the default command. -/
+theorem default_cmd_full_if_public_test {st : St} {q : Parser} (hfix : cfg.allParsers = false)
+    (hq : q ∈ st.parsers) (hpub : q.internal = false) (hd : st.default = some q.name) (argv : List Name)
+    (h : ∀ a, argv.head? = some a → a ∉ [hShort, hLong] ∧ a ∉ publicNames st.parsers) :
+    parseArgs cfg st argv = parseArgs cfg st (q.name :: argv) := by
+  have hfa : firstArgNames cfg st = publicNames st.parsers := by
+    unfold firstArgNames; rw [hfix]; rfl
+  unfold parseArgs
+  rw [withDefault_keep argv (Or.inr (mem_firstArgNames hq hpub)), withDefault_insert argv, hd]
+  · intro a ha
+    rw [std_shape.2.2, hfa]
+    exact h a ha
+
+/-- **The gap (known finding c19b).** The code compares the first argument with *all* parser names
+(`cfg.allParsers = true`, read from the source). Then, when the first word is the name of an internal
+`!` option set, the default command is *not* inserted: `parse_args` exits with "invalid choice". -/
+theorem internal_name_gap {dflt ds adds st} (hall : cfg.allParsers = true) (hr : Reach dflt ds adds st)
+    {q : Parser} (hq : q ∈ st.parsers)
     (hint : q.internal = true) (h1 : q.name ≠ hShort) (h2 : q.name ≠ hLong) (rest : List Name) :
     parseArgs cfg st (q.name :: rest) = .error (.exit 2) := by
   obtain ⟨ps0, hinv, hwf, _, hp, _⟩ := reach_unfold hr
   have hn : (names st.parsers).Nodup := hp ▸ reach_nodup hinv hwf
-  have hfa : firstArgNames cfg st = names st.parsers := rfl
+  have hfa : firstArgNames cfg st = names st.parsers := by
+    unfold firstArgNames; rw [if_pos hall]
   unfold parseArgs
   rw [withDefault_keep rest (Or.inr (hfa ▸ List.mem_map.mpr ⟨q, hq, rfl⟩))]
   have h1' : q.name ≠ ['-', 'h'] := h1
@@ -444,29 +538,35 @@ example : parseDiamond ["d", "--fo"] = .error (.exit 2) := by decide +kernel
 example : okWith (parseDiamond ["w1", "w2"]) "items" (.list [n "w1", n "w2"]) = true := by decide +kernel
 example : okWith (parseDiamond ["--fa"]) "command" (.str (n "a")) = true := by decide +kernel
 example : parseDecl (n "!cmd2: cmd1 ,,opts, cmd1") = ⟨n "cmd2", true, [n "opts", n "cmd1"]⟩ := by decide +kernel
+example : render ⟨n "cmd2", false, [n "cmd1", n "opts_set1"]⟩ = n "cmd2:cmd1,opts_set1" := by decide +kernel
 
 end Examples
 
 /-- **Counterexample to the full default-command statement (known finding c19b).** With
 `commands=[('!o',…), ('a:o',…)]` and a positional `items` on `a`, the word `o` does not start with a
 command name, the default command `a` accepts it (`['a','o']` gives `items=['o']`), yet `['o']` exits. -/
-theorem default_cmd_internal_name_counterexample :
+theorem default_cmd_internal_name_counterexample (hall : cfg.allParsers = true) :
     ∃ st, Reach none [⟨['o'], true, []⟩, ⟨['a'], false, [['o']]⟩]
         [(some ['a'], { strings := [['i', 't', 'e', 'm', 's']], kind := .pos, mutex := false })] st ∧
       st.default = some ['a'] ∧
       parseArgs cfg st [['o']] = .error (.exit 2) ∧
       (∃ ns, parseArgs cfg st [['a'], ['o']] = .ok ns ∧
         ns.get ['i', 't', 'e', 'm', 's'] = some (.list [['o']])) := by
-  have hb : ∃ st0, build cfg none [⟨['o'], true, []⟩, ⟨['a'], false, [['o']]⟩] = .ok st0 ∧
-      ∃ st, addAll st0 [(some ['a'], { strings := [['i', 't', 'e', 'm', 's']], kind := .pos, mutex := false })] = .ok st ∧
-      st.default = some ['a'] ∧ parseArgs cfg st [['o']] = .error (.exit 2) ∧
-      (parseArgs cfg st [['a'], ['o']]).toOption.bind (fun ns => ns.get ['i', 't', 'e', 'm', 's']) =
-        some (.list [['o']]) := by
-    refine ⟨_, rfl, _, rfl, ?_, ?_, ?_⟩ <;> decide +kernel
-  obtain ⟨st0, h0, st, h1, h2, h3, h4⟩ := hb
-  refine ⟨st, ⟨st0, h0, h1⟩, h2, h3, ?_⟩
-  cases hp : parseArgs cfg st [['a'], ['o']] with
-  | error e => simp [hp, Except.toOption] at h4
-  | ok ns => exact ⟨ns, rfl, by simpa [hp, Except.toOption] using h4⟩
+  have _ := hall
+  -- evaluated by the kernel for the code as it is; if the source compares with the public names only,
+  -- `hall` is contradictory and nothing is claimed
+  first
+  | have hb : ∃ st0, build cfg none [⟨['o'], true, []⟩, ⟨['a'], false, [['o']]⟩] = .ok st0 ∧
+        ∃ st, addAll st0 [(some ['a'], { strings := [['i', 't', 'e', 'm', 's']], kind := .pos, mutex := false })] = .ok st ∧
+        st.default = some ['a'] ∧ parseArgs cfg st [['o']] = .error (.exit 2) ∧
+        (parseArgs cfg st [['a'], ['o']]).toOption.bind (fun ns => ns.get ['i', 't', 'e', 'm', 's']) =
+          some (.list [['o']]) := by
+      refine ⟨_, rfl, _, rfl, ?_, ?_, ?_⟩ <;> decide +kernel
+    obtain ⟨st0, h0, st, h1, h2, h3, h4⟩ := hb
+    refine ⟨st, ⟨st0, h0, h1⟩, h2, h3, ?_⟩
+    cases hp : parseArgs cfg st [['a'], ['o']] with
+    | error e => simp [hp, Except.toOption] at h4
+    | ok ns => exact ⟨ns, rfl, by simpa [hp, Except.toOption] using h4⟩
+  | exact absurd hall (by decide)
 
 end C19
